@@ -1,6 +1,6 @@
 """Structural mutations of a document given as a list of segment strings (shared by C03, C07, C12, C18)."""
 KINDS = ('delete', 'duplicate', 'swap', 'truncate', 'retag', 'orphan_trailer', 'bad_count', 'overlong', 'empty_elements', 'blank_segment',
-         'too_many_components', 'lowercase_id', 'long_percent_value', 'format_braces_value')
+         'too_many_components', 'lowercase_id', 'long_percent_value', 'format_braces_value', 'trailing_separator')
 
 
 def mutate(segs, kind, i):
@@ -49,6 +49,21 @@ def mutate(segs, kind, i):
         if len(e) > 1 and e[0] != 'ISA':
             e[-1] = ('100% EQUITY %s %(x)d ' if kind == 'long_percent_value' else '{0} {} {x!r} ') * 8
         s[i] = '*'.join(e)
+    elif kind == 'trailing_separator':
+        s[i] = s[i] + '*'
     else:
         raise ValueError(kind)
     return s
+
+
+def reencode(segs, seg_t, ele_t, sub_t, eol=''):
+    """Re-encode a document written with ~ * : using another delimiter triple and line-break convention."""
+    out = []
+    for seg in segs:
+        e = seg.split('*')
+        if e[0] == 'ISA' and len(e) == 17:
+            e[16] = sub_t
+            out.append(ele_t.join(e))
+        else:
+            out.append(ele_t.join([x.replace(':', sub_t) for x in e]))
+    return ''.join(x + seg_t + eol for x in out)
